@@ -3,7 +3,7 @@
    type, ConfigSchema/MapConfigSchema.serialize, config._format). *)
 From Coq Require Import ZArith List Bool.
 From Common Require Import Res Str.
-From Config Require Import Escape Proofs_Escape Types Schema Spec_C12 Serialize Proofs_Serialize Proofs_List Proofs_Pair.
+From Config Require Import Escape Proofs_Escape Types Schema Spec_C12 Serialize Proofs_Serialize Proofs_List Proofs_Pair Layers Ini Proofs_Ini.
 Import ListNotations.
 Open Scope Z_scope.
 
@@ -198,6 +198,66 @@ Theorem C13_format_key_roundtrip_partial :
     exists s, serialize so o false t v = SStr s /\ entry o keys (Some s) k = (Some v, None).
 Proof. exact format_key_roundtrip_lemma. Qed.
 Print Assumptions C13_format_key_roundtrip_partial.
+
+(* T5 at the INI-syntax level.  Ini.v is a model of RawConfigParser._read as mopidy configures
+   it (inline ";" comments, "#"/";" comment lines, "=" / ":" delimiters, continuation lines,
+   blank lines inside values, section headers, MissingSectionHeaderError), tied to
+   configparser itself by corr:ini on every rendered and formatted text of a run. *)
+
+(* one "key = value" line as _format writes it parses to exactly (key, value) *)
+Theorem C13_ini_option_line :
+  forall o st sec k v,
+    p_sect st = Some sec -> p_indent st = 0 -> key_safe o k -> val_safe v ->
+    ini_step o st (k ++ s_eqsp ++ v)
+    = SCont {| p_sect := Some sec; p_opt := Some (k, [v]); p_indent := 0; p_out := flush st |}.
+Proof. exact ini_step_option. Qed.
+Print Assumptions C13_ini_option_line.
+
+(* a whole text of "[section]" / "key = value" / blank-line blocks parses back to exactly those
+   sections, keys and values: for every number of sections and keys, every safe name and every
+   value the INI syntax can carry (empty or stripped, one line, no ";" after whitespace or at its
+   start; "#" anywhere, "=" and ":" inside values are fine) *)
+Theorem C13_ini_roundtrip :
+  forall o blocks,
+    blocks <> [] ->
+    Forall (fun b => sect_safe (fst b) /\ Forall (kv_safe o) (snd b)) blocks ->
+    parse_ini o (ini_text blocks) = PLines (flat_map (fun b => block_events (fst b) (snd b)) blocks).
+Proof. exact parse_ini_format_blocks. Qed.
+Print Assumptions C13_ini_roundtrip.
+
+(* config._format's lines are such blocks ... *)
+Theorem C13_format_lines_are_blocks :
+  forall so o display schemas cfg,
+    Forall (fun s => entries_ok (schema_serialize so o display s (dget_default (schema_name s) cfg [])) = true) schemas ->
+    format_lines so o display false schemas cfg
+    = inl (Some (flat_map (fun b => block_lines (fst b) (snd b)) (blocks_of so o display schemas cfg))).
+Proof. exact format_lines_blocks. Qed.
+Print Assumptions C13_format_lines_are_blocks.
+
+(* ... so parsing what _format wrote gives, section by section and key by key, the serialized
+   texts back (dict level).  Partial: stated for the lines before _format's final
+   "\n".join(..).strip() (which only removes the last blank line and a trailing blank of an empty
+   last value; the real stripped text is covered by corr:ini / format_load_roundtrip), for
+   one-line values (scalars; list values span several lines and are monitor-only). *)
+Theorem C13_format_parse_roundtrip_partial :
+  forall so o display schemas cfg,
+    Forall (fun s => entries_ok (schema_serialize so o display s (dget_default (schema_name s) cfg [])) = true) schemas ->
+    blocks_of so o display schemas cfg <> [] ->
+    Forall (fun b => sect_safe (fst b) /\ Forall (kv_safe o) (snd b)) (blocks_of so o display schemas cfg) ->
+    exists lines, format_lines so o display false schemas cfg = inl (Some lines)
+      /\ ini_config o (join [NL] lines)
+         = Some (fold_left set2 (flat_map (fun b => map (fun kv => (fst b, fst kv, snd kv)) (snd b))
+                                           (blocks_of so o display schemas cfg)) []).
+Proof. exact format_parse_roundtrip. Qed.
+Print Assumptions C13_format_parse_roundtrip_partial.
+
+Example C13_ini_example :
+  parse_ini (Build_oracles (fun _ => IValueError) (fun _ => FValueError) (fun s => XOk s) (fun s => s)
+                           (fun _ => ROSError) (fun c => [c]) (fun _ s => s))
+            (ini_text [([97], [([107], [118; 32; 35; 49]); ([122], [])]); ([98], [])])
+  = PLines [Header [97]; Opt [107] [118; 32; 35; 49]; Opt [122] []; Header [98]].
+Proof. exact ex_ini_roundtrip. Qed.
+Print Assumptions C13_ini_example.
 
 (* The oracle hypotheses are satisfiable. *)
 Example C13_oracle_hypotheses_satisfiable : str_oracles_ok law_so law_o.
